@@ -176,6 +176,100 @@ theorem forgery_needs_collision (S : Suite) (c : Ctx) (raw : Bytes) (h : Hdr) (p
   · right
     exact ⟨hm, by rw [htag]; rfl⟩
 
+/-! #### … tied to what `protect` really authenticates -/
+
+/-- the one MAC query `SrtpContext::protect` makes for packet `p` in state `c` -/
+def genuineOf (S : Suite) (c : Ctx) (p : Pkt) : GenuineRtp :=
+  ⟨writeHdr p.hdr (p.padLen ≠ 0), cmBody S c p.hdr.seq (c.estimate p.hdr.seq) p.body, c.estimate p.hdr.seq⟩
+
+/-- every MAC query of a whole send history (a `protect` that fails on `validate` makes none) -/
+def sentBy (S : Suite) : Ctx → List Pkt → List GenuineRtp
+  | _, [] => []
+  | c, p :: ps => (if validHdr p.hdr then [genuineOf S c p] else []) ++ sentBy S (c.protectRtp S p).2 ps
+
+/-- the protected packets the history put on the wire -/
+def wiresBy (S : Suite) : Ctx → List Pkt → List Bytes
+  | _, [] => []
+  | c, p :: ps =>
+    (match (c.protectRtp S p).1 with | .ok w => [w] | .error _ => []) ++ wiresBy S (c.protectRtp S p).2 ps
+
+private theorem protectRtp_static (S : Suite) (c : Ctx) (p : Pkt) :
+    (c.protectRtp S p).2.rtp = c.rtp ∧ (c.protectRtp S p).2.profile = c.profile ∧
+    ((c.protectRtp S p).2.roc = c.roc ∨ (c.protectRtp S p).2.roc = c.estimate p.hdr.seq) := by
+  by_cases hv : validHdr p.hdr = true
+  · rw [protectRtp_eq S c p hv]
+    refine ⟨rfl, rfl, ?_⟩
+    simp only [Ctx.updated, updateRoc]
+    cases c.last with
+    | none => right; rfl
+    | some l => simp only; split
+                · right; rfl
+                · left; rfl
+  · rw [protectRtp_invalid S c p (by simpa using hv)]; exact ⟨rfl, rfl, Or.inl rfl⟩
+
+private theorem wire_keys (S : Suite) (a b : Ctx) (g : GenuineRtp) (hk : a.rtp = b.rtp) (hp : a.profile = b.profile) :
+    g.wire S a = g.wire S b := by simp [GenuineRtp.wire, rtpTag, hk, hp]
+
+/-- **genuine_of_protect**: on the HMAC profiles every packet `protect` emits is exactly
+`header ‖ ciphertext ‖ trunc(HMAC(header ‖ ciphertext ‖ ROC))` for its one MAC query — the wires of a
+send history are the `wire`s of its MAC queries, nothing else is ever authenticated. -/
+theorem genuine_of_protect (S : Suite) (ps : List Pkt) (c c0 : Ctx) (hg : c.profile ≠ .gcm)
+    (hk : c.rtp = c0.rtp) (hp : c.profile = c0.profile) :
+    wiresBy S c ps = (sentBy S c ps).map (·.wire S c0) := by
+  induction ps generalizing c with
+  | nil => rfl
+  | cons p ps ih =>
+    obtain ⟨s1, s2, _⟩ := protectRtp_static S c p
+    have ih' := ih (c.protectRtp S p).2 (by rw [s2]; exact hg) (by rw [s1]; exact hk) (by rw [s2]; exact hp)
+    simp only [wiresBy, sentBy, List.map_append, ih']
+    congr 1
+    by_cases hv : validHdr p.hdr = true
+    · rw [protectRtp_eq S c p hv]
+      simp only [hv, if_true, List.map_cons, List.map_nil]
+      rw [← wire_keys S c c0 _ hk hp]
+      simp [genuineOf, GenuineRtp.wire, rtpWireBody, hg]
+    · rw [protectRtp_invalid S c p (by simpa using hv)]
+      simp [hv]
+
+private theorem sentBy_roc_lt (S : Suite) (ps : List Pkt) (c : Ctx) (h : c.roc < 4294967296) :
+    ∀ g ∈ sentBy S c ps, g.roc < 4294967296 := by
+  induction ps generalizing c with
+  | nil => intro g hgm; simp [sentBy] at hgm
+  | cons p ps ih =>
+    intro g hgm
+    simp only [sentBy, List.mem_append] at hgm
+    rcases hgm with hgm | hgm
+    · split at hgm
+      · simp only [List.mem_singleton] at hgm; subst hgm; exact estimate_lt c _ h
+      · simp at hgm
+    · refine ih (c.protectRtp S p).2 ?_ g hgm
+      rcases (protectRtp_static S c p).2.2 with e | e <;> rw [e]
+      · exact h
+      · exact estimate_lt c _ h
+
+/-- **forged_or_sent** (HMAC profiles): a sender context `cs` protects ANY history of packets; a receive
+context with the same RTP auth key and profile accepts a datagram `raw`. Then `raw` is bit-for-bit one
+of the packets the sender put on the wire, or `raw` carries a valid truncated HMAC over a message
+that is not among the sender's MAC queries (`MacForged`) — the key holder's set is no longer a free
+parameter but exactly what `SrtpContext::protect` authenticated. -/
+theorem forged_or_sent (S : Suite) (cs cr : Ctx) (ps : List Pkt) (raw : Bytes) (h : Hdr) (p : Bool) (body : Bytes)
+    (hg : cs.profile ≠ .gcm) (hk : cr.rtp = cs.rtp) (hp : cr.profile = cs.profile)
+    (hrs : cs.roc < 2 ^ 32) (hrr : cr.roc < 2 ^ 32)
+    (hparse : parseHdr raw = .ok (h, p, body))
+    (hacc : ∃ pkt, (cr.unprotectRtp S h p body).1 = .ok pkt) :
+    raw ∈ wiresBy S cs ps ∨
+    MacForged S cr.rtp.ak cr.profile.tagLen ((sentBy S cs ps).map GenuineRtp.macInput)
+      (rtpAuthInput (writeHdr h p) (body.take (splitAt cr body)) (cr.estimate h.seq))
+      (body.drop (splitAt cr body)) := by
+  have hg' : cr.profile ≠ .gcm := by rw [hp]; exact hg
+  rcases forgery_needs_collision S cr raw h p body (sentBy S cs ps) hg' hrr
+      (fun g hgm => by simpa using sentBy_roc_lt S ps cs (by simpa using hrs) g hgm) hparse hacc with
+    ⟨g, hgm, hraw, _⟩ | hf
+  · left
+    rw [genuine_of_protect S ps cs cs hg rfl rfl, hraw, wire_keys S cr cs g hk hp]
+    exact List.mem_map.mpr ⟨g, hgm, rfl⟩
+  · right; exact hf
+
 /-- EVENT: AEAD-open succeeded on a `(nonce, AAD, ciphertext‖tag)` triple that is not among the triples
 `Q` the key holder produced with `seal`. -/
 def AeadForged (S : Suite) (k : Bytes) (Q : List (Bytes × Bytes × Bytes)) (nonce aad c : Bytes) : Prop :=
@@ -206,6 +300,51 @@ theorem forgery_needs_collision_rtcp (S : Suite) (c : Ctx) (pkt out : Bytes) (Q 
   by_cases hm : pkt.take (pkt.length - c.profile.rtcpTagLen) ∈ Q
   · left; refine ⟨_, hm, ?_⟩; rw [← htag, List.take_append_drop]
   · right; exact ⟨hm, by rw [htag]; rfl⟩
+
+/-- the one MAC query `protect_rtcp` makes: (possibly encrypted) packet ‖ `E‖index` -/
+def rtcpQueryOf (S : Suite) (c : Ctx) (pkt : Bytes) : Bytes :=
+  (if pkt.length > 8 ∧ c.encrypts then rtcpCipher S c ((c.rtcpIndex + 1) % 4294967296) pkt else pkt) ++
+    be32 (c.eWord ((c.rtcpIndex + 1) % 4294967296))
+
+def rtcpSentBy (S : Suite) : Ctx → List Bytes → List Bytes
+  | _, [] => []
+  | c, pkt :: ps => rtcpQueryOf S c pkt :: rtcpSentBy S (c.protectRtcp S pkt).2 ps
+
+def rtcpWiresBy (S : Suite) : Ctx → List Bytes → List Bytes
+  | _, [] => []
+  | c, pkt :: ps =>
+    (match (c.protectRtcp S pkt).1 with | .ok w => [w] | .error _ => []) ++ rtcpWiresBy S (c.protectRtcp S pkt).2 ps
+
+/-- **genuine_of_protect** (RTCP, HMAC profiles): the wires of an SRTCP send history are exactly
+`m ‖ trunc(HMAC(m))` for its MAC queries `m` -/
+theorem genuine_of_protect_rtcp (S : Suite) (ps : List Bytes) (c c0 : Ctx) (hg : c.profile ≠ .gcm)
+    (hk : c.rtcp = c0.rtcp) (hp : c.profile = c0.profile) :
+    rtcpWiresBy S c ps = (rtcpSentBy S c ps).map (fun m => m ++ rtcpTag S c0 m) := by
+  induction ps generalizing c with
+  | nil => rfl
+  | cons pkt ps ih =>
+    have ih' := ih (c.protectRtcp S pkt).2 (by rw [protectRtcp_eq]; exact hg) (by rw [protectRtcp_eq]; exact hk)
+      (by rw [protectRtcp_eq]; exact hp)
+    simp only [rtcpWiresBy, rtcpSentBy, List.map_cons, ih']
+    rw [protectRtcp_eq]
+    have ht : ∀ m, rtcpTag S c m = rtcpTag S c0 m := by intro m; simp [rtcpTag, hk, hp]
+    simp [rtcpWire, hg, rtcpQueryOf, ht]
+
+/-- **forged_or_sent** (RTCP, HMAC profiles) -/
+theorem forged_or_sent_rtcp (S : Suite) (cs cr : Ctx) (ps : List Bytes) (pkt out : Bytes)
+    (hg : cs.profile ≠ .gcm) (hk : cr.rtcp = cs.rtcp) (hp : cr.profile = cs.profile)
+    (hacc : (cr.unprotectRtcp S pkt).1 = .ok out) :
+    pkt ∈ rtcpWiresBy S cs ps ∨
+    MacForged S cr.rtcp.ak cr.profile.rtcpTagLen (rtcpSentBy S cs ps)
+      (pkt.take (pkt.length - cr.profile.rtcpTagLen)) (pkt.drop (pkt.length - cr.profile.rtcpTagLen)) := by
+  have hg' : cr.profile ≠ .gcm := by rw [hp]; exact hg
+  rcases forgery_needs_collision_rtcp S cr pkt out (rtcpSentBy S cs ps) hg' hacc with ⟨m, hm, hpkt⟩ | hf
+  · left
+    rw [genuine_of_protect_rtcp S ps cs cs hg rfl rfl, hpkt]
+    have ht : rtcpTag S cr m = rtcpTag S cs m := by simp [rtcpTag, hk, hp]
+    rw [ht]
+    exact List.mem_map.mpr ⟨m, hm, rfl⟩
+  · right; exact hf
 
 /-- **forgery_needs_collision** (AEAD, RTCP) -/
 theorem forgery_needs_aead_forgery_rtcp (S : Suite) (c : Ctx) (pkt out : Bytes)
